@@ -14,7 +14,7 @@
 From Coq Require Import Reals Lra Lia ZArith List Bool.
 From Coquelicot Require Import Coquelicot.
 From SVP Require Import Base.Num Base.Cplx Base.FieldTac Model.Bezier Model.Arc Model.Xform
-     Proofs.ArcR Proofs.XformArcAlg.
+     Proofs.ArcR Proofs.ArcDeriv Proofs.XformArcAlg.
 Import ListNotations.
 Local Open Scope R_scope.
 
@@ -406,3 +406,999 @@ Section ScaleKernel.
     destruct (Req_b sy sx) eqn:E; [|reflexivity]. apply Req_b_true in E. contradiction.
   Qed.
 End ScaleKernel.
+
+
+(* ####################################################################### *)
+(* Second part — the REPAIRED Arc branch of transform()
+   (Model/Xform.v, arc_transform_fixed) maps the arc point-wise, over the reals.
+
+   Part 0  atan2 (built from atan and the quadrant, as np.arctan2) gives the polar
+           angle: rho*cos = x, rho*sin = y;  angles with equal cos and sin that are
+           less than a turn apart are equal.
+   Part A  linear algebra of the image ellipse.  M = A.R(phi).diag(rx,ry); with
+           (p,q,r) = M.M^T, lam = (p+r)/2 + hypot((p-r)/2, q), rx' = sqrt lam,
+           ry' = |det M|/rx', phi' = atan2(q,(p-r)/2)/2:
+              M.u(theta) = R(phi').diag(rx',ry').u(s*theta + alpha),  s = sign det A.
+   Part B  round trip of the constructor: the endpoint parameterisation of the arc
+           c + R(phi).diag(rx,ry).u(a + t*delta) (flags from delta) is turned back
+           by arc_init into the same centre, radii, start angle and delta.
+   Part C  composition: transform(arc, tf).point(t) = tf.(arc.point(t)), the
+           large_arc flag is kept and sweep flips iff det < 0. *)
+(* ================================================================== *)
+(* Part 0                                                               *)
+(* ================================================================== *)
+Lemma cos_eq_1_small d : cos d = 1 -> -2 * PI < d < 2 * PI -> d = 0.
+Proof.
+  intros Hc Hd. pose proof PI_RGT_0 as Hpi.
+  assert (Hs : sin (d / 2) = 0).
+  { replace d with (2 * (d / 2)) in Hc by field. rewrite cos_2a_sin in Hc.
+    assert (sin (d / 2) * sin (d / 2) = 0) by lra.
+    destruct (Rmult_integral _ _ H); assumption. }
+  destruct (Rle_lt_dec 0 d) as [Hp|Hn].
+  - destruct (sin_eq_O_2PI_0 (d / 2)) as [E|[E|E]]; try lra.
+  - assert (Hs' : sin (- d / 2) = 0).
+    { replace (- d / 2) with (- (d / 2)) by field. rewrite sin_neg. lra. }
+    destruct (sin_eq_O_2PI_0 (- d / 2)) as [E|[E|E]]; try lra.
+Qed.
+
+Lemma angle_unique x y : cos x = cos y -> sin x = sin y -> -2 * PI < x - y < 2 * PI -> x = y.
+Proof.
+  intros Hc Hs Hd. assert (x - y = 0); [|lra].
+  apply cos_eq_1_small; [|exact Hd].
+  rewrite cos_minus, Hc, Hs. pose proof (sin2_cos2 y) as H. unfold Rsqr in H. lra.
+Qed.
+
+(* np.arctan2 over the reals *)
+Definition atan2R (y x : R) : R := atan2_ NumR NumTR y x.
+
+Lemma sqrt_sq_pos_factor x y : 0 < x -> sqrt (x * x + y * y) = x * sqrt (1 + (y / x)²).
+Proof.
+  intros Hx. replace (x * x + y * y) with ((x * x) * (1 + (y / x)²)) by (unfold Rsqr; field; lra).
+  rewrite sqrt_mult; [|nra|unfold Rsqr; pose proof (Rle_0_sqr (y / x)) as H; unfold Rsqr in H; lra].
+  rewrite sqrt_square by lra. reflexivity.
+Qed.
+
+Lemma sqrt_1z_pos z : 0 < sqrt (1 + z²).
+Proof. apply sqrt_lt_R0. pose proof (Rle_0_sqr z). lra. Qed.
+
+Lemma atan2_polar x y :
+  sqrt (x * x + y * y) * cos (atan2R y x) = x /\ sqrt (x * x + y * y) * sin (atan2R y x) = y.
+Proof.
+  pose proof PI_RGT_0 as Hpi.
+  unfold atan2R, atan2_. rewrite two_R. cbn [ltb leb NumR zero atan_ pi_ NumTR add sub div opp].
+  unfold Rlt_b, Rle_b.
+  destruct (Rlt_dec 0 x) as [Hx|Hx].
+  { rewrite (sqrt_sq_pos_factor x y Hx), cos_atan, sin_atan.
+    pose proof (sqrt_1z_pos (y / x)) as Hs. split; field; lra. }
+  destruct (Rlt_dec x 0) as [Hx'|Hx'].
+  { assert (Hm : 0 < - x) by lra.
+    assert (Hq : sqrt (x * x + y * y) = - x * sqrt (1 + (y / x)²)).
+    { replace (x * x + y * y) with ((- x) * (- x) + y * y) by ring.
+      rewrite (sqrt_sq_pos_factor (- x) y Hm). f_equal. f_equal. f_equal. unfold Rsqr. field. lra. }
+    pose proof (sqrt_1z_pos (y / x)) as Hs.
+    destruct (Rle_dec 0 y).
+    - rewrite Hq, cos_plus, sin_plus, cos_PI, sin_PI, cos_atan, sin_atan. split; field; lra.
+    - rewrite Hq, cos_minus, sin_minus, cos_PI, sin_PI, cos_atan, sin_atan. split; field; lra. }
+  assert (x = 0) by lra. subst x.
+  replace (0 * 0 + y * y) with (y * y) by ring.
+  destruct (Rlt_dec 0 y) as [Hy|Hy].
+  { rewrite sqrt_square by lra. rewrite cos_PI2, sin_PI2. split; ring. }
+  destruct (Rlt_dec y 0) as [Hy'|Hy'].
+  { replace (y * y) with ((- y) * (- y)) by ring. rewrite sqrt_square by lra.
+    rewrite cos_neg, sin_neg, cos_PI2, sin_PI2. split; ring. }
+  assert (y = 0) by lra. subst y. rewrite Rmult_0_l, sqrt_0. split; ring.
+Qed.
+
+(* ================================================================== *)
+(* Part A: the image ellipse                                            *)
+(* ================================================================== *)
+(* rows orthonormal and determinant s: the second row is s * (first row rotated) *)
+Lemma orth2_second_row n11 n12 n21 n22 s :
+  n11 * n11 + n12 * n12 = 1 -> n11 * n21 + n12 * n22 = 0 -> n11 * n22 - n12 * n21 = s ->
+  n21 = - s * n12 /\ n22 = s * n11.
+Proof.
+  intros H1 H2 H3. split.
+  - transitivity (n21 * (n11 * n11 + n12 * n12)); [rewrite H1; ring|].
+    transitivity (n11 * (n11 * n21 + n12 * n22) - n12 * (n11 * n22 - n12 * n21)); [ring|].
+    rewrite H2, H3. ring.
+  - transitivity (n22 * (n11 * n11 + n12 * n12)); [rewrite H1; ring|].
+    transitivity (n12 * (n11 * n21 + n12 * n22) + n11 * (n11 * n22 - n12 * n21)); [ring|].
+    rewrite H2, H3. ring.
+Qed.
+
+Section ImageEllipse.
+  (* M = ((m00, m01), (m10, m11)) with non-zero determinant dM *)
+  Variables m00 m01 m10 m11 : R.
+  Let dM := m00 * m11 - m01 * m10.
+  Hypothesis HdM : dM <> 0.
+  Let p := m00 * m00 + m01 * m01.
+  Let q := m00 * m10 + m01 * m11.
+  Let r := m10 * m10 + m11 * m11.
+  Let hd := (p - r) / 2.
+  Let rad := sqrt (hd * hd + q * q).
+  Let lam := (p + r) / 2 + rad.
+  Let lam2 := (p + r) / 2 - rad.
+  Let psi := atan2R q hd / 2.          (* phi' in radians *)
+  Let Cp := cos psi.
+  Let Sp := sin psi.
+  Let nrx := sqrt lam.
+  Let nry := Rabs dM / nrx.
+
+  Lemma rad_ge0 : 0 <= rad.  Proof. apply sqrt_pos. Qed.
+  Lemma rad_sq : rad * rad = hd * hd + q * q.
+  Proof. apply sqrt_sqrt. nra. Qed.
+  Lemma pr_pos : 0 < p + r.
+  Proof.
+    unfold p, r. destruct (Req_dec m00 0) as [E0|E0]; destruct (Req_dec m01 0) as [E1|E1].
+    - exfalso. apply HdM. unfold dM. rewrite E0, E1. ring.
+    - pose proof (sq_pos_nz _ E1). nra.
+    - pose proof (sq_pos_nz _ E0). nra.
+    - pose proof (sq_pos_nz _ E0). nra.
+  Qed.
+  Lemma lam_pos : 0 < lam.
+  Proof. unfold lam. pose proof pr_pos. pose proof rad_ge0. lra. Qed.
+  Lemma lam_lam2 : lam * lam2 = dM * dM.
+  Proof.
+    unfold lam, lam2. transitivity ((p + r) / 2 * ((p + r) / 2) - rad * rad); [ring|].
+    rewrite rad_sq. unfold hd, p, q, r, dM. field.
+  Qed.
+  Lemma lam2_pos : 0 < lam2.
+  Proof.
+    pose proof lam_pos as H. pose proof lam_lam2 as E. pose proof (sq_pos_nz _ HdM) as Hd.
+    rewrite <- E in Hd. destruct (Rle_lt_dec lam2 0) as [Hn|Hp]; [|exact Hp]. nra.
+  Qed.
+  Lemma nrx_pos : 0 < nrx.  Proof. apply sqrt_lt_R0, lam_pos. Qed.
+  Lemma nrx_sq : nrx * nrx = lam.  Proof. apply sqrt_sqrt. pose proof lam_pos. lra. Qed.
+  Lemma nry_pos : 0 < nry.
+  Proof. unfold nry. apply Rdiv_lt_0_compat; [apply Rabs_pos_lt, HdM|apply nrx_pos]. Qed.
+  Lemma nrx_nry : nrx * nry = Rabs dM.
+  Proof. unfold nry. pose proof nrx_pos. field. lra. Qed.
+  Lemma nry_sq : nry * nry = lam2.
+  Proof.
+    pose proof nrx_pos as H. pose proof lam_pos as Hl.
+    assert (E : nrx * nrx * (nry * nry) = lam * lam2).
+    { transitivity ((nrx * nry) * (nrx * nry)); [ring|].
+      rewrite nrx_nry, lam_lam2. rewrite <- Rabs_mult. apply Rabs_right. nra. }
+    rewrite nrx_sq in E. apply Rmult_eq_reg_l with lam; [exact E|lra].
+  Qed.
+
+  (* double angle: (hd, q) = rad * (cos 2psi, sin 2psi) *)
+  Lemma double_angle : rad * (Cp * Cp - Sp * Sp) = hd /\ rad * (2 * Sp * Cp) = q.
+  Proof.
+    destruct (atan2_polar hd q) as [A B]. fold rad in A, B.
+    unfold Cp, Sp. rewrite <- cos_2a, <- sin_2a.
+    replace (2 * psi) with (atan2R q hd) by (unfold psi; field). split; assumption.
+  Qed.
+  Lemma CS_unit : Cp * Cp + Sp * Sp = 1.
+  Proof. unfold Cp, Sp. pose proof (sin2_cos2 psi) as H. unfold Rsqr in H. lra. Qed.
+
+  (* the rows of  R(psi)^T . M *)
+  Let w11 := Cp * m00 + Sp * m10.
+  Let w12 := Cp * m01 + Sp * m11.
+  Let w21 := - Sp * m00 + Cp * m10.
+  Let w22 := - Sp * m01 + Cp * m11.
+
+  Lemma XY_unit : (Cp * Cp - Sp * Sp) * (Cp * Cp - Sp * Sp) + (2 * Sp * Cp) * (2 * Sp * Cp) = 1.
+  Proof.
+    pose proof CS_unit as U.
+    transitivity ((Cp * Cp + Sp * Sp) * (Cp * Cp + Sp * Sp)); [ring|]. rewrite U. ring.
+  Qed.
+  Lemma row1_norm : w11 * w11 + w12 * w12 = lam.
+  Proof.
+    destruct double_angle as [A B]. pose proof CS_unit as U. pose proof XY_unit as V.
+    transitivity ((p + r) / 2 * (Cp * Cp + Sp * Sp) + hd * (Cp * Cp - Sp * Sp) + q * (2 * Sp * Cp)).
+    { unfold hd, w11, w12, p, q, r. field. }
+    rewrite U, <- A, <- B.
+    transitivity ((p + r) / 2 + rad * ((Cp * Cp - Sp * Sp) * (Cp * Cp - Sp * Sp)
+                                        + (2 * Sp * Cp) * (2 * Sp * Cp))); [ring|].
+    rewrite V. unfold lam. ring.
+  Qed.
+  Lemma row2_norm : w21 * w21 + w22 * w22 = lam2.
+  Proof.
+    destruct double_angle as [A B]. pose proof CS_unit as U. pose proof XY_unit as V.
+    transitivity ((p + r) / 2 * (Cp * Cp + Sp * Sp) - hd * (Cp * Cp - Sp * Sp) - q * (2 * Sp * Cp)).
+    { unfold hd, w21, w22, p, q, r. field. }
+    rewrite U, <- A, <- B.
+    transitivity ((p + r) / 2 - rad * ((Cp * Cp - Sp * Sp) * (Cp * Cp - Sp * Sp)
+                                        + (2 * Sp * Cp) * (2 * Sp * Cp))); [ring|].
+    rewrite V. unfold lam2. ring.
+  Qed.
+  Lemma rows_orth : w11 * w21 + w12 * w22 = 0.
+  Proof.
+    destruct double_angle as [A B].
+    transitivity (- Sp * Cp * (p - r) + (Cp * Cp - Sp * Sp) * q); [unfold w11, w12, w21, w22, p, q, r; ring|].
+    replace (p - r) with (2 * hd) by (unfold hd; field).
+    rewrite <- A, <- B. ring.
+  Qed.
+  Lemma rows_det : w11 * w22 - w12 * w21 = dM.
+  Proof.
+    pose proof CS_unit as U.
+    transitivity ((Cp * Cp + Sp * Sp) * dM); [unfold w11, w12, w21, w22, dM; ring|]. rewrite U. ring.
+  Qed.
+
+  (* N = diag(1/rx', 1/ry') . R(psi)^T . M is orthogonal with determinant sign dM *)
+  Let sgn := dM / Rabs dM.
+  Let n11 := w11 / nrx.
+  Let n12 := w12 / nrx.
+  Lemma sgn_cases : (sgn = 1 /\ 0 < dM) \/ (sgn = -1 /\ dM < 0).
+  Proof.
+    unfold sgn. destruct (Rlt_dec 0 dM).
+    - left. rewrite Rabs_right by lra. split; [field; lra|lra].
+    - right. assert (dM < 0) by lra. rewrite Rabs_left by lra. split; [field; lra|lra].
+  Qed.
+  Lemma n1_unit : n11 * n11 + n12 * n12 = 1.
+  Proof.
+    pose proof nrx_pos as H. unfold n11, n12.
+    transitivity ((w11 * w11 + w12 * w12) / (nrx * nrx)); [field; lra|].
+    rewrite row1_norm, nrx_sq. pose proof lam_pos. field. lra.
+  Qed.
+  Lemma second_row : w21 / nry = - sgn * n12 /\ w22 / nry = sgn * n11.
+  Proof.
+    pose proof nrx_pos as H1. pose proof nry_pos as H2. pose proof lam_pos as Hl.
+    apply orth2_second_row.
+    - apply n1_unit.
+    - unfold n11, n12. transitivity ((w11 * w21 + w12 * w22) / (nrx * nry)); [field; lra|].
+      rewrite rows_orth. field. lra.
+    - unfold n11, n12. transitivity ((w11 * w22 - w12 * w21) / (nrx * nry)); [field; lra|].
+      rewrite rows_det, nrx_nry. reflexivity.
+  Qed.
+
+  (* the alpha of the statement: (cos alpha, sin alpha) = N e1 *)
+  Definition img_alpha : R := ang n11 (- sgn * n12).
+  Lemma alpha_cos_sin : cos img_alpha = n11 /\ sin img_alpha = - sgn * n12.
+  Proof.
+    apply ang_cos_sin. pose proof n1_unit as U.
+    destruct sgn_cases as [[-> _]|[-> _]]; nra.
+  Qed.
+
+  (* M.u(theta) = R(psi).diag(rx', ry').u(s*theta + alpha) *)
+  Theorem image_param theta :
+    m00 * cos theta + m01 * sin theta
+      = nrx * Cp * cos (sgn * theta + img_alpha) - nry * Sp * sin (sgn * theta + img_alpha)
+    /\ m10 * cos theta + m11 * sin theta
+      = nrx * Sp * cos (sgn * theta + img_alpha) + nry * Cp * sin (sgn * theta + img_alpha).
+  Proof.
+    destruct alpha_cos_sin as [Ac As]. destruct second_row as [R1 R2].
+    pose proof nrx_pos as H1. pose proof nry_pos as H2. pose proof CS_unit as U.
+    assert (Hc : cos (sgn * theta) = cos theta /\ sin (sgn * theta) = sgn * sin theta).
+    { destruct sgn_cases as [[-> _]|[-> _]].
+      - rewrite Rmult_1_l. split; ring.
+      - replace (-1 * theta) with (- theta) by ring. rewrite cos_neg, sin_neg. split; ring. }
+    destruct Hc as [Hc Hs].
+    assert (Hss : sgn * sgn = 1) by (destruct sgn_cases as [[-> _]|[-> _]]; ring).
+    rewrite cos_plus, sin_plus, Hc, Hs, Ac, As.
+    (* nrx*n11 = w11, nrx*n12 = w12, nry*(-sgn n12) = w21, nry*(sgn n11) = w22 *)
+    assert (E11 : nrx * n11 = w11) by (unfold n11; field; lra).
+    assert (E12 : nrx * n12 = w12) by (unfold n12; field; lra).
+    assert (E21 : nry * (- sgn * n12) = w21) by (rewrite <- R1; field; lra).
+    assert (E22 : nry * (sgn * n11) = w22) by (rewrite <- R2; field; lra).
+    split.
+    - transitivity (Cp * (nrx * n11 * cos theta + sgn * sgn * (nrx * n12) * sin theta)
+                    - Sp * (nry * (sgn * n11) * sin theta + nry * (- sgn * n12) * cos theta)); [|ring].
+      rewrite Hss, E11, E12, E21, E22. unfold w11, w12, w21, w22.
+      transitivity ((Cp * Cp + Sp * Sp) * (m00 * cos theta + m01 * sin theta)); [rewrite U; ring|ring].
+    - transitivity (Sp * (nrx * n11 * cos theta + sgn * sgn * (nrx * n12) * sin theta)
+                    + Cp * (nry * (sgn * n11) * sin theta + nry * (- sgn * n12) * cos theta)); [|ring].
+      rewrite Hss, E11, E12, E21, E22. unfold w11, w12, w21, w22.
+      transitivity ((Cp * Cp + Sp * Sp) * (m10 * cos theta + m11 * sin theta)); [rewrite U; ring|ring].
+  Qed.
+
+  (* the quantities of the statement, under names that survive the section *)
+  Definition ie_dM := dM.
+  Definition ie_lam := lam.
+  Definition ie_psi := psi.
+  Definition ie_nrx := nrx.
+  Definition ie_nry := nry.
+  Definition ie_sgn := sgn.
+  Lemma ie_lam_pos : 0 < ie_lam.  Proof. exact lam_pos. Qed.
+  Lemma ie_nrx_pos : 0 < ie_nrx.  Proof. exact nrx_pos. Qed.
+  Lemma ie_nry_pos : 0 < ie_nry.  Proof. exact nry_pos. Qed.
+  Lemma ie_sgn_cases : (ie_sgn = 1 /\ 0 < ie_dM) \/ (ie_sgn = -1 /\ ie_dM < 0).
+  Proof. exact sgn_cases. Qed.
+  Theorem ie_image_param theta :
+    m00 * cos theta + m01 * sin theta
+      = ie_nrx * cos ie_psi * cos (ie_sgn * theta + img_alpha)
+        - ie_nry * sin ie_psi * sin (ie_sgn * theta + img_alpha)
+    /\ m10 * cos theta + m11 * sin theta
+      = ie_nrx * sin ie_psi * cos (ie_sgn * theta + img_alpha)
+        + ie_nry * cos ie_psi * sin (ie_sgn * theta + img_alpha).
+  Proof. exact (image_param theta). Qed.
+End ImageEllipse.
+
+(* ================================================================== *)
+(* Part B: the constructor recovers the centre parameterisation         *)
+(* ================================================================== *)
+Lemma same_sign_sq x y : x * x = y * y -> 0 <= x * y -> x = y.
+Proof.
+  intros H1 H2. assert (E : (x - y) * (x + y) = 0) by nra.
+  destruct (Rmult_integral _ _ E) as [E1|E1]; [lra|].
+  assert (x = - y) by lra. subst x. assert (y * y <= 0) by nra.
+  assert (y = 0) by nra. lra.
+Qed.
+
+Section Roundtrip.
+  Variable c : C.
+  Variables rot rx ry a delta : R.
+  Variables large sweep : bool.
+  Hypothesis Hrx : 0 < rx.
+  Hypothesis Hry : 0 < ry.
+  Hypothesis Hd0 : delta <> 0.
+  Hypothesis Hd : -360 < delta < 360.
+  Hypothesis Hsw : sweep = true <-> 0 < delta.
+  Hypothesis Hl1 : 180 < Rabs delta -> large = true.
+  Hypothesis Hl2 : Rabs delta < 180 -> large = false.
+
+  Let phi := arc_phi NumTR rot.
+  Let h := delta * PI / 360.
+  Let m := a + h.
+  (* c + R(phi).diag(rx,ry).u(theta) *)
+  Definition ell (cphi sphi : R) (theta : R) : C :=
+    (rx * cphi * cos theta - ry * sphi * sin theta + fst c,
+     rx * sphi * cos theta + ry * cphi * sin theta + snd c).
+  Let start := ell (cos phi) (sin phi) (m - h).
+  Let end_ := ell (cos phi) (sin phi) (m + h).
+  Let radius : C := (rx, ry).
+  Hypothesis Hsnap : snap_inactive start radius end_ rot false.
+
+  Let z := arc_zp1_of NumR NumTR start rot end_.
+  Let rS := arc_radius_of NumR NumTR start radius rot end_.
+  Let radicand := arc_radicand_of NumR NumTR start radius rot end_.
+  Let radical := arc_radical_of NumR NumTR false start radius rot end_.
+  Let cp := arc_cp_of NumR NumTR false start radius rot large sweep end_.
+  Let u1 := arc_u1_of NumR NumTR false start radius rot large sweep end_.
+  Let u2 := arc_u2_of NumR NumTR false start radius rot large sweep end_.
+  Let Q := arc_init NumR NumTR start radius rot large sweep end_.
+
+  Lemma phi_unit : cos phi * cos phi + sin phi * sin phi = 1.
+  Proof. pose proof (sin2_cos2 phi) as H. unfold Rsqr in H. lra. Qed.
+  Lemma m_unit : cos m * cos m + sin m * sin m = 1.
+  Proof. pose proof (sin2_cos2 m) as H. unfold Rsqr in H. lra. Qed.
+  Lemma h_unit : cos h * cos h + sin h * sin h = 1.
+  Proof. pose proof (sin2_cos2 h) as H. unfold Rsqr in H. lra. Qed.
+
+  Lemma h_range : - PI < h < PI /\ h <> 0.
+  Proof.
+    pose proof PI_RGT_0 as Hpi. unfold h. split; [split|].
+    - apply Rmult_lt_reg_r with (360 / PI); [apply Rdiv_lt_0_compat; lra|].
+      replace (delta * PI / 360 * (360 / PI)) with delta by (field; lra).
+      replace (- PI * (360 / PI)) with (-360) by (field; lra). lra.
+    - apply Rmult_lt_reg_r with (360 / PI); [apply Rdiv_lt_0_compat; lra|].
+      replace (delta * PI / 360 * (360 / PI)) with delta by (field; lra).
+      replace (PI * (360 / PI)) with 360 by (field; lra). lra.
+    - intros E. apply Hd0. apply Rmult_eq_reg_r with (PI / 360); [|apply Rgt_not_eq, Rdiv_lt_0_compat; lra].
+      transitivity (delta * PI / 360); [field|]. rewrite E. ring.
+  Qed.
+  Lemma sinh_ne0 : sin h <> 0.
+  Proof.
+    destruct h_range as [[A B] Hn]. destruct (Rlt_dec 0 h).
+    - apply Rgt_not_eq, sin_gt_0; lra.
+    - apply Rlt_not_eq, sin_lt_0_var; lra.
+  Qed.
+
+  (* start - end and start + end *)
+  Lemma chord :
+    fst start - fst end_ = 2 * sin h * (rx * cos phi * sin m + ry * sin phi * cos m) /\
+    snd start - snd end_ = 2 * sin h * (rx * sin phi * sin m - ry * cos phi * cos m).
+  Proof.
+    unfold start, end_, ell. cbn [fst snd].
+    rewrite cos_minus, cos_plus, sin_minus, sin_plus. split; ring.
+  Qed.
+  Lemma midsum :
+    (fst start + fst end_) / 2 = cos h * (rx * cos phi * cos m - ry * sin phi * sin m) + fst c /\
+    (snd start + snd end_) / 2 = cos h * (rx * sin phi * cos m + ry * cos phi * sin m) + snd c.
+  Proof.
+    unfold start, end_, ell. cbn [fst snd].
+    rewrite cos_minus, cos_plus, sin_minus, sin_plus. split; field.
+  Qed.
+
+  Lemma z_val : z = (rx * sin h * sin m, - ry * sin h * cos m).
+  Proof.
+    unfold z. rewrite (z_eq start end_ rot). fold phi.
+    destruct chord as [-> ->]. pose proof phi_unit as U.
+    apply cplx_eq; cbn [fst snd].
+    - transitivity (rx * sin h * sin m * (cos phi * cos phi + sin phi * sin phi)); [field|]. rewrite U. ring.
+    - transitivity (- ry * sin h * cos m * (cos phi * cos phi + sin phi * sin phi)); [field|]. rewrite U. ring.
+  Qed.
+
+  Lemma Hse : start <> end_.
+  Proof.
+    intros E. destruct chord as [A B]. rewrite E in A, B.
+    pose proof sinh_ne0 as Hs. pose proof m_unit as Um. pose proof phi_unit as U.
+    assert (X : rx * cos phi * sin m + ry * sin phi * cos m = 0).
+    { apply Rmult_eq_reg_l with (2 * sin h); [|lra]. rewrite <- A. ring. }
+    assert (Y : rx * sin phi * sin m - ry * cos phi * cos m = 0).
+    { apply Rmult_eq_reg_l with (2 * sin h); [|lra]. rewrite <- B. ring. }
+    assert (S0 : rx * sin m = 0).
+    { transitivity (rx * sin m * (cos phi * cos phi + sin phi * sin phi)); [rewrite U; ring|].
+      transitivity (cos phi * (rx * cos phi * sin m + ry * sin phi * cos m)
+                    + sin phi * (rx * sin phi * sin m - ry * cos phi * cos m)); [ring|].
+      rewrite X, Y. ring. }
+    assert (C0 : ry * cos m = 0).
+    { transitivity (ry * cos m * (cos phi * cos phi + sin phi * sin phi)); [rewrite U; ring|].
+      transitivity (sin phi * (rx * cos phi * sin m + ry * sin phi * cos m)
+                    - cos phi * (rx * sin phi * sin m - ry * cos phi * cos m)); [ring|].
+      rewrite X, Y. ring. }
+    assert (sin m = 0) by (destruct (Rmult_integral _ _ S0); lra).
+    assert (cos m = 0) by (destruct (Rmult_integral _ _ C0); lra).
+    nra.
+  Qed.
+  Lemma absr : abs_radius NumR radius = (rx, ry).
+  Proof. rewrite r0_eq. unfold radius. cbn [fst snd]. now rewrite !Rabs_right by lra. Qed.
+
+  Lemma rc_val : arc_rc_of NumR NumTR start radius rot end_ = sin h * sin h.
+  Proof.
+    unfold arc_rc_of. rewrite absr. fold z. rewrite z_val. unfold arc_rc. rsimp.
+    pose proof m_unit as Um.
+    transitivity (sin h * sin h * (cos m * cos m + sin m * sin m)); [field; lra|]. rewrite Um. ring.
+  Qed.
+
+  Lemma rS_val : rS = (rx, ry).
+  Proof.
+    unfold rS, arc_radius_of. rewrite rc_val, absr. unfold arc_scaled_radius.
+    cbn [ltb one NumR]. rewrite Rlt_b_f; [reflexivity|]. pose proof h_unit. nra.
+  Qed.
+
+  Lemma radicand_val : radicand * (sin h * sin h) = cos h * cos h.
+  Proof.
+    unfold radicand, arc_radicand_of. fold rS z. rewrite rS_val, z_val.
+    unfold arc_radicand. rsimp. pose proof m_unit as Um. pose proof h_unit as Uh.
+    pose proof sinh_ne0 as Hs.
+    assert (E : rx * rx * (- ry * sin h * cos m * (- ry * sin h * cos m))
+                + ry * ry * (rx * sin h * sin m * (rx * sin h * sin m))
+                = rx * rx * (ry * ry) * (sin h * sin h)).
+    { transitivity (rx * rx * (ry * ry) * (sin h * sin h) * (cos m * cos m + sin m * sin m)); [ring|].
+      rewrite Um. ring. }
+    rewrite E.
+    transitivity (1 - sin h * sin h); [field; repeat split; lra|lra].
+  Qed.
+
+  Lemma Hr0x : fst radius <> 0.  Proof. unfold radius. cbn. lra. Qed.
+  Lemma Hr0y : snd radius <> 0.  Proof. unfold radius. cbn. lra. Qed.
+
+  Lemma radical_facts : 0 <= radical /\ radical * radical * (sin h * sin h) = cos h * cos h.
+  Proof.
+    split.
+    - apply (radical_ge0 start radius end_ rot false Hse Hr0x Hr0y).
+    - pose proof (radical_sq start radius end_ rot false Hse Hr0x Hr0y Hsnap) as H.
+      fold radical radicand in H. rewrite H. apply radicand_val.
+  Qed.
+
+  (* the sign of c' relative to (rx*y/ry, -ry*x/rx) *)
+  Let sg : R := if Bool.eqb large sweep then -1 else 1.
+
+  Lemma delta_h : delta = h * 360 / PI.
+  Proof. unfold h. pose proof PI_RGT_0. field. lra. Qed.
+
+  Lemma key_sign : sg * radical * sin h = cos h.
+  Proof.
+    destruct radical_facts as [Hk Hk2]. destruct h_range as [[A B] Hn]. pose proof PI_RGT_0 as Hpi.
+    assert (Hsg2 : sg * sg = 1) by (unfold sg; destruct (Bool.eqb large sweep); ring).
+    assert (Hfin : 0 <= sg * sin h * cos h -> 0 <= sg * radical * sin h * cos h).
+    { intros Hx. replace (sg * radical * sin h * cos h) with (radical * (sg * sin h * cos h)) by ring.
+      apply Rmult_le_pos; assumption. }
+    apply same_sign_sq.
+    { transitivity (sg * sg * (radical * radical * (sin h * sin h))); [ring|]. rewrite Hsg2, Hk2. ring. }
+    (* sign analysis on the four quadrants of h *)
+    assert (Hdh : delta = h * 360 / PI) by apply delta_h.
+    destruct (Rlt_dec 0 h) as [Hp|Hp].
+    - assert (Hs : 0 < sin h) by (apply sin_gt_0; lra).
+      assert (Hswt : sweep = true).
+      { apply Hsw. rewrite Hdh. apply Rdiv_lt_0_compat; nra. }
+      destruct (Rle_lt_dec h (PI / 2)) as [Hq|Hq].
+      + (* 0 < delta <= 180 *)
+        assert (Hc : 0 <= cos h).
+        { destruct (Req_dec h (PI / 2)) as [->|Hne]; [rewrite cos_PI2; lra|].
+          apply Rlt_le, cos_gt_0; lra. }
+        destruct (Req_dec (cos h) 0) as [E0|E0]; [rewrite E0, Rmult_0_r; lra|].
+        assert (Hlt : h < PI / 2).
+        { destruct (Req_dec h (PI / 2)) as [E|E]; [|lra]. exfalso. apply E0. rewrite E. apply cos_PI2. }
+        assert (HL : large = false).
+        { apply Hl2. rewrite Hdh. rewrite Rabs_right; [|apply Rle_ge, Rlt_le, Rdiv_lt_0_compat; nra].
+          apply Rmult_lt_reg_r with PI; [lra|]. unfold Rdiv. rewrite Rmult_assoc, Rinv_l by lra. nra. }
+        apply Hfin. unfold sg. rewrite HL, Hswt. cbn [Bool.eqb]. nra.
+      + (* 180 < delta < 360 *)
+        assert (Hc : cos h < 0) by (apply cos_lt_0; lra).
+        assert (HL : large = true).
+        { apply Hl1. rewrite Hdh. rewrite Rabs_right; [|apply Rle_ge, Rlt_le, Rdiv_lt_0_compat; nra].
+          apply Rmult_lt_reg_r with PI; [lra|]. unfold Rdiv. rewrite Rmult_assoc, Rinv_l by lra. nra. }
+        apply Hfin. unfold sg. rewrite HL, Hswt. cbn [Bool.eqb]. nra.
+    - assert (Hneg : h < 0) by lra.
+      assert (Hs : sin h < 0) by (apply sin_lt_0_var; lra).
+      assert (Hswf : sweep = false).
+      { destruct sweep; [|reflexivity]. exfalso.
+        assert (0 < delta) by (apply Hsw; reflexivity).
+        assert (delta < 0); [|lra]. rewrite Hdh.
+        apply Ropp_lt_cancel. rewrite Ropp_0.
+        replace (- (h * 360 / PI)) with ((- h) * 360 / PI) by (field; lra).
+        apply Rdiv_lt_0_compat; nra. }
+      assert (Habs : Rabs delta = (- h) * 360 / PI).
+      { rewrite Hdh. rewrite Rabs_left.
+        - field; lra.
+        - apply Ropp_lt_cancel. rewrite Ropp_0.
+          replace (- (h * 360 / PI)) with ((- h) * 360 / PI) by (field; lra).
+          apply Rdiv_lt_0_compat; nra. }
+      destruct (Rle_lt_dec (- (PI / 2)) h) as [Hq|Hq].
+      + (* -180 <= delta < 0 *)
+        assert (Hc : 0 <= cos h).
+        { destruct (Req_dec h (- (PI / 2))) as [->|Hne]; [rewrite cos_neg, cos_PI2; lra|].
+          apply Rlt_le, cos_gt_0; lra. }
+        destruct (Req_dec (cos h) 0) as [E0|E0]; [rewrite E0, Rmult_0_r; lra|].
+        assert (Hlt : - (PI / 2) < h).
+        { destruct (Req_dec h (- (PI / 2))) as [E|E]; [|lra]. exfalso. apply E0. rewrite E, cos_neg. apply cos_PI2. }
+        assert (HL : large = false).
+        { apply Hl2. rewrite Habs.
+          apply Rmult_lt_reg_r with PI; [lra|]. unfold Rdiv. rewrite Rmult_assoc, Rinv_l by lra. nra. }
+        apply Hfin. unfold sg. rewrite HL, Hswf. cbn [Bool.eqb]. nra.
+      + (* -360 < delta < -180 *)
+        assert (Hc : cos h < 0).
+        { rewrite <- cos_neg. apply cos_lt_0; lra. }
+        assert (HL : large = true).
+        { apply Hl1. rewrite Habs.
+          apply Rmult_lt_reg_r with PI; [lra|]. unfold Rdiv. rewrite Rmult_assoc, Rinv_l by lra. nra. }
+        apply Hfin. unfold sg. rewrite HL, Hswf. cbn [Bool.eqb]. nra.
+  Qed.
+  Lemma cp_val : cp = (- rx * cos h * cos m, - ry * cos h * sin m).
+  Proof.
+    unfold cp. rewrite (cp_eq start radius end_ rot large sweep false). fold rS z radical.
+    rewrite rS_val, z_val. pose proof key_sign as K. unfold sg in K.
+    unfold arc_cp. cbn [fst snd re im]. destruct (Bool.eqb large sweep); rsimp;
+      apply cplx_eq; cbn [fst snd].
+    - transitivity (- rx * cos m * (-1 * radical * sin h)); [field; lra|]. rewrite K. ring.
+    - transitivity (- ry * sin m * (-1 * radical * sin h)); [field; lra|]. rewrite K. ring.
+    - transitivity (- rx * cos m * (1 * radical * sin h)); [field; lra|]. rewrite K. ring.
+    - transitivity (- ry * sin m * (1 * radical * sin h)); [field; lra|]. rewrite K. ring.
+  Qed.
+
+  Lemma u1_val : u1 = (cos (m - h), sin (m - h)).
+  Proof.
+    unfold u1. rewrite (u1_noclip start radius end_ rot large sweep false Hse Hr0x Hr0y).
+    fold rS z cp. rewrite rS_val, z_val, cp_val. unfold arc_u1_raw. rsimp.
+    rewrite cos_minus, sin_minus. apply cplx_eq; cbn [fst snd]; field; lra.
+  Qed.
+  Lemma u2_val : u2 = (cos (m + h), sin (m + h)).
+  Proof.
+    unfold u2. rewrite (u2_noclip start radius end_ rot large sweep false Hse Hr0x Hr0y).
+    fold rS z cp. rewrite rS_val, z_val, cp_val. unfold arc_u2_raw. rsimp.
+    rewrite cos_plus, sin_plus. apply cplx_eq; cbn [fst snd]; field; lra.
+  Qed.
+
+  Lemma center_val : a_center Q = c.
+  Proof.
+    destruct (P_fields start radius end_ rot large sweep false) as (_ & Hc & _).
+    unfold Q, arc_init. rewrite Hc.
+    rewrite (center_eq start radius end_ rot large sweep false). fold phi cp.
+    destruct midsum as [-> ->]. rewrite cp_val. cbn [fst snd].
+    pose proof phi_unit as U. destruct c as [cx cy]. cbn [fst snd].
+    apply cplx_eq; cbn [fst snd].
+    - transitivity (cx + ry * cos h * sin m * 0); [|ring]. ring.
+    - ring.
+  Qed.
+  Lemma theta_val :
+    cos (a_theta Q * PI / 180) = cos (m - h) /\ sin (a_theta Q * PI / 180) = sin (m - h).
+  Proof.
+    change (a_theta Q) with (arc_theta NumR NumTR u1). rewrite theta_ang, u1_val. cbn [fst snd].
+    apply ang_cos_sin. pose proof (sin2_cos2 (m - h)) as H. unfold Rsqr in H. lra.
+  Qed.
+
+  Lemma dot_det_val : arc_dot NumR u1 u2 = cos (2 * h) /\ arc_det NumR u1 u2 = sin (2 * h).
+  Proof.
+    rewrite u1_val, u2_val. unfold arc_dot, arc_det. rsimp.
+    replace (2 * h) with ((m + h) - (m - h)) by ring. rewrite (cos_minus (m + h) (m - h)), (sin_minus (m + h) (m - h)). split; ring.
+  Qed.
+
+  Lemma delta_bounds : (0 < a_delta Q < 360 /\ sweep = true) \/ (-360 < a_delta Q < 0 /\ sweep = false).
+  Proof.
+    destruct (arc_delta_cases start radius end_ rot large sweep false Hse Hr0x Hr0y)
+      as [[_ H]|[_ [H|[H|[H|H]]]]];
+      change (arc_init_v NumR NumTR false start radius rot large sweep end_) with Q in H.
+    - destruct (bool_cases sweep) as [E|E]; rewrite E in H at 1; [left|right]; rewrite H; split; try exact E; lra.
+    - destruct H as (_ & E & H). left. split; [lra|exact E].
+    - destruct H as (_ & E & H). right. split; [lra|exact E].
+    - destruct H as (_ & E & H). left. split; [lra|exact E].
+    - destruct H as (_ & E & H). right. split; [lra|exact E].
+  Qed.
+
+  Lemma delta_val : a_delta Q = delta.
+  Proof.
+    pose proof PI_RGT_0 as Hpi.
+    destruct dot_det_val as [Hdot Hdet].
+    assert (Hrange : -1 <= arc_dot NumR u1 u2 <= 1).
+    { rewrite Hdot. pose proof (COS_bound (2 * h)). lra. }
+    pose proof (delta0_ang u1 u2 Hrange) as Hang. rewrite Hdot, Hdet in Hang.
+    assert (Hu : cos (2 * h) * cos (2 * h) + sin (2 * h) * sin (2 * h) = 1).
+    { pose proof (sin2_cos2 (2 * h)) as H. unfold Rsqr in H. lra. }
+    destruct (ang_cos_sin _ _ Hu) as [Hc Hs]. rewrite <- Hang in Hc, Hs.
+    set (D0 := arc_delta0 NumR NumTR u1 u2) in *.
+    assert (HQ : a_delta Q = arc_adjust NumR large sweep D0) by reflexivity.
+    assert (Hcs : cos (a_delta Q * PI / 180) = cos (2 * h) /\ sin (a_delta Q * PI / 180) = sin (2 * h)).
+    { rewrite HQ. destruct (adjust_cases large sweep D0) as [->|[->| ->]].
+      - split; assumption.
+      - replace ((D0 - 360) * PI / 180) with (D0 * PI / 180 - 2 * PI) by field.
+        rewrite cos_minus, sin_minus, cos_2PI, sin_2PI, Hc, Hs. split; ring.
+      - replace ((D0 + 360) * PI / 180) with (D0 * PI / 180 + 2 * PI) by field.
+        rewrite cos_plus, sin_plus, cos_2PI, sin_2PI, Hc, Hs. split; ring. }
+    destruct Hcs as [Hc' Hs'].
+    assert (E : a_delta Q * PI / 180 = 2 * h).
+    { apply angle_unique; [exact Hc'|exact Hs'|].
+      replace (a_delta Q * PI / 180 - 2 * h) with ((a_delta Q - delta) * (PI / 180)) by (unfold h; field).
+      assert (Hb : -360 < a_delta Q - delta < 360).
+      { destruct delta_bounds as [[B E]|[B E]].
+        - assert (0 < delta) by (apply Hsw; exact E). lra.
+        - assert (~ 0 < delta) by (intros X; apply Hsw in X; congruence). lra. }
+      assert (Hk : 0 < PI / 180) by (apply Rdiv_lt_0_compat; lra).
+      replace (-2 * PI) with (-360 * (PI / 180)) by field.
+      replace (2 * PI) with (360 * (PI / 180)) by field.
+      split; apply Rmult_lt_compat_r; lra. }
+    unfold h in E. apply Rmult_eq_reg_r with (PI / 180); [|apply Rgt_not_eq, Rdiv_lt_0_compat; lra].
+    transitivity (a_delta Q * PI / 180); [field|]. rewrite E. field.
+  Qed.
+
+  (* the constructor gives back the centre parameterisation *)
+  Theorem arc_init_roundtrip :
+    a_radius Q = (rx, ry) /\ a_center Q = c /\ a_delta Q = delta /\
+    cos (a_theta Q * PI / 180) = cos (m - h) /\ sin (a_theta Q * PI / 180) = sin (m - h) /\
+    a_rot Q = (cos phi, sin phi).
+  Proof.
+    destruct theta_val as [A B].
+    repeat split; [apply rS_val|apply center_val|apply delta_val|exact A|exact B].
+  Qed.
+
+  Theorem arc_init_roundtrip_point t :
+    arc_point NumR NumTR Q t = ell (cos phi) (sin phi) (m - h + t * (delta * PI / 180)).
+  Proof.
+    destruct arc_init_roundtrip as (Hr & Hc & Hdl & Hct & Hst & Hm).
+    unfold arc_point. rewrite Hr, Hc, Hdl, Hm. rsimp.
+    replace ((a_theta Q + t * delta) * PI / 180)
+      with (a_theta Q * PI / 180 + t * (delta * PI / 180)) by field.
+    unfold ell. rewrite !(cos_plus (a_theta Q * PI / 180)), !(sin_plus (a_theta Q * PI / 180)), Hct, Hst.
+    rewrite (cos_plus (m - h)), (sin_plus (m - h)).
+    apply cplx_eq; cbn [fst snd]; ring.
+  Qed.
+End Roundtrip.
+
+(* the round trip with start angle a and end angle a + delta (radians: delta*PI/180) *)
+Lemma arc_init_roundtrip' (c : C) (rot rx ry a delta : R) (large sweep : bool) :
+  0 < rx -> 0 < ry -> delta <> 0 -> -360 < delta < 360 ->
+  (sweep = true <-> 0 < delta) ->
+  (180 < Rabs delta -> large = true) -> (Rabs delta < 180 -> large = false) ->
+  let cphi := cos (arc_phi NumTR rot) in let sphi := sin (arc_phi NumTR rot) in
+  let st := ell c rx ry cphi sphi a in
+  let en := ell c rx ry cphi sphi (a + delta * PI / 180) in
+  snap_inactive st (rx, ry) en rot false ->
+  forall t, arc_point NumR NumTR (arc_init NumR NumTR st (rx, ry) rot large sweep en) t
+            = ell c rx ry cphi sphi (a + t * (delta * PI / 180)).
+Proof.
+  intros Hrx Hry Hd0 Hd Hsw Hl1 Hl2 cphi sphi st en Hsn t.
+  pose proof (arc_init_roundtrip_point c rot rx ry a delta large sweep Hrx Hry Hd0 Hd Hsw Hl1 Hl2) as H.
+  replace (a + delta * PI / 360 - delta * PI / 360) with a in H by field.
+  replace (a + delta * PI / 360 + delta * PI / 360) with (a + delta * PI / 180) in H by field.
+  exact (H Hsn t).
+Qed.
+
+(* the radicand of _parameterize in terms of the arc's angular extent: cot^2(delta/2) *)
+Lemma radicand_center_form (c : C) (rot rx ry a delta : R) :
+  0 < rx -> 0 < ry -> delta <> 0 -> -360 < delta < 360 ->
+  let cphi := cos (arc_phi NumTR rot) in let sphi := sin (arc_phi NumTR rot) in
+  arc_radicand_of NumR NumTR (ell c rx ry cphi sphi a) (rx, ry) rot
+                  (ell c rx ry cphi sphi (a + delta * PI / 180))
+  * (sin (delta * PI / 360) * sin (delta * PI / 360))
+  = cos (delta * PI / 360) * cos (delta * PI / 360).
+Proof.
+  intros Hrx Hry Hd0 Hd cphi sphi.
+  pose proof (radicand_val c rot rx ry a delta Hrx Hry Hd0 Hd) as H.
+  replace (a + delta * PI / 360 - delta * PI / 360) with a in H by field.
+  replace (a + delta * PI / 360 + delta * PI / 360) with (a + delta * PI / 180) in H by field.
+  exact H.
+Qed.
+
+(* ================================================================== *)
+(* Part C: the repaired Arc branch of transform()                        *)
+(* ================================================================== *)
+Lemma deg_rad' x : arc_phi NumTR (degrees_ NumTR x) = x.
+Proof. unfold arc_phi. cbn [radians_ degrees_ NumTR]. apply deg_rad. Qed.
+
+Section Compose.
+  Variables start radius end_ : C.
+  Variable rotation : R.
+  Variables large sweep : bool.
+  Hypothesis Hse : start <> end_.
+  Hypothesis Hrx0 : fst radius <> 0.
+  Hypothesis Hry0 : snd radius <> 0.
+  Hypothesis Hsn : snap_inactive start radius end_ rotation false.
+  Variables a00 a01 a02 a10 a11 a12 r20 r21 r22 : R.
+  Let M : Mat3 R := ((a00, a01, a02), (a10, a11, a12), (r20, r21, r22)).
+  Let det := a00 * a11 - a01 * a10.
+  Hypothesis Hdet : det <> 0.
+
+  Let P := arc_init NumR NumTR start radius rotation large sweep end_.
+  Let phi := arc_phi NumTR rotation.
+  Let Rx := fst (a_radius P).
+  Let Ry := snd (a_radius P).
+  Let cP := a_center P.
+  Let th0 := a_theta P * PI / 180.
+  Let dl := a_delta P.
+
+  Lemma Rxy_pos : 0 < Rx /\ 0 < Ry.
+  Proof. apply (rS_pos start radius end_ rotation Hrx0 Hry0). Qed.
+
+  (* M2 = A.R(phi).diag(Rx, Ry) *)
+  Let m00 := (a00 * cos phi + a01 * sin phi) * Rx.
+  Let m01 := (a01 * cos phi - a00 * sin phi) * Ry.
+  Let m10 := (a10 * cos phi + a11 * sin phi) * Rx.
+  Let m11 := (a11 * cos phi - a10 * sin phi) * Ry.
+
+  Lemma tfM_val : arc_tf_M NumR M P = ((m00, m01), (m10, m11)).
+  Proof. reflexivity. Qed.
+
+  Lemma dM_val : m00 * m11 - m01 * m10 = det * Rx * Ry.
+  Proof.
+    pose proof (sin2_cos2 phi) as U. unfold Rsqr in U.
+    transitivity (det * Rx * Ry * (cos phi * cos phi + sin phi * sin phi)); [unfold m00, m01, m10, m11, det; ring|].
+    replace (cos phi * cos phi + sin phi * sin phi) with 1 by lra. ring.
+  Qed.
+  Lemma HdM : m00 * m11 - m01 * m10 <> 0.
+  Proof.
+    rewrite dM_val. destruct Rxy_pos. intros E.
+    destruct (Rmult_integral _ _ E) as [E1|E1]; [|lra].
+    destruct (Rmult_integral _ _ E1); [contradiction|lra].
+  Qed.
+
+  Let nrx := ie_nrx m00 m01 m10 m11.
+  Let nry := ie_nry m00 m01 m10 m11.
+  Let psi := ie_psi m00 m01 m10 m11.
+  Let sgn := ie_sgn m00 m01 m10 m11.
+  Let alpha := img_alpha m00 m01 m10 m11.
+  Let c' := tf_point NumR M cP.
+
+  Lemma sgn_det : (sgn = 1 /\ 0 < det) \/ (sgn = -1 /\ det < 0).
+  Proof.
+    destruct Rxy_pos as [A B].
+    destruct (ie_sgn_cases m00 m01 m10 m11 HdM) as [[E H]|[E H]]; unfold ie_dM in H; rewrite dM_val in H.
+    - left. split; [exact E|]. assert (0 < Rx * Ry) by nra. nra.
+    - right. split; [exact E|]. assert (0 < Rx * Ry) by nra. nra.
+  Qed.
+
+  (* the old arc in centre form *)
+  Lemma P_point t : arc_point NumR NumTR P t = ell cP Rx Ry (cos phi) (sin phi) (th0 + t * (dl * PI / 180)).
+  Proof.
+    unfold arc_point, ell, th0, dl, Rx, Ry, cP. rsimp.
+    replace ((a_theta P + t * a_delta P) * PI / 180) with (a_theta P * PI / 180 + t * (a_delta P * PI / 180)) by field.
+    reflexivity.
+  Qed.
+
+  (* the image of a point of the ellipse of P *)
+  Lemma image_point theta :
+    tf_point NumR M (ell cP Rx Ry (cos phi) (sin phi) theta)
+    = ell c' nrx nry (cos psi) (sin psi) (sgn * theta + alpha).
+  Proof.
+    destruct (ie_image_param m00 m01 m10 m11 HdM theta) as [E1 E2].
+    fold nrx nry psi sgn alpha in E1, E2.
+    unfold ell, c', tf_point, M. destruct cP as [cx cy]. rsimp.
+    apply cplx_eq; cbn [fst snd].
+    - transitivity (m00 * cos theta + m01 * sin theta + (a00 * cx + a01 * cy + a02 * 1));
+        [unfold m00, m01; ring|]. rewrite E1. ring.
+    - transitivity (m10 * cos theta + m11 * sin theta + (a10 * cx + a11 * cy + a12 * 1));
+        [unfold m10, m11; ring|]. rewrite E2. ring.
+  Qed.
+  Lemma dl_facts : dl <> 0 /\ -360 < dl < 360 /\ (sweep = true <-> 0 < dl)
+                   /\ (180 < Rabs dl -> large = true) /\ (Rabs dl < 180 -> large = false).
+  Proof.
+    unfold dl, P, arc_init.
+    destruct (arc_delta_cases start radius end_ rotation large sweep false Hse Hrx0 Hry0)
+      as [[_ H]|[_ [H|[H|[H|H]]]]].
+    - rewrite H. destruct sweep.
+      + rewrite (Rabs_right 180) by lra. repeat split; try lra; intros; try reflexivity; lra.
+      + rewrite (Rabs_left (-180)) by lra. repeat split; try lra; intros; try discriminate; lra.
+    - destruct H as (-> & -> & H). rewrite Rabs_right by lra.
+      repeat split; try lra; intros; try reflexivity; lra.
+    - destruct H as (-> & -> & H). rewrite Rabs_left by lra.
+      repeat split; try lra; intros; try discriminate; try reflexivity; lra.
+    - destruct H as (-> & -> & H). rewrite Rabs_right by lra.
+      repeat split; try lra; intros; try reflexivity; lra.
+    - destruct H as (-> & -> & H). rewrite Rabs_left by lra.
+      repeat split; try lra; intros; try discriminate; try reflexivity; lra.
+  Qed.
+
+  (* the model's new radii and rotation are those of Part A *)
+  Lemma new_rx_val : arc_tf_new_rx NumR NumTR M P = nrx.
+  Proof.
+    unfold arc_tf_new_rx. rewrite tfM_val.
+    unfold arc_tf_lam, arc_tf_half_diff, arc_tf_pqr, nrx, ie_nrx. rsimp. reflexivity.
+  Qed.
+  Lemma new_ry_val : arc_tf_new_ry NumR NumTR M P = nry.
+  Proof.
+    unfold arc_tf_new_ry. rewrite new_rx_val. destruct Rxy_pos as [A B].
+    unfold nry, ie_nry. fold nrx. cbv zeta. rewrite dM_val.
+    unfold tf_det, M. rsimp. rewrite nabs_R. fold det. fold Rx Ry.
+    rewrite !Rabs_mult, (Rabs_right Rx), (Rabs_right Ry) by lra.
+    change (ie_nrx m00 m01 m10 m11) with nrx. reflexivity.
+  Qed.
+  Lemma new_rot_phi : arc_phi NumTR (arc_tf_new_rot NumR NumTR M P) = psi.
+  Proof.
+    unfold arc_tf_new_rot. rewrite tfM_val.
+    unfold arc_tf_pqr, arc_tf_half_diff. rewrite deg_rad'. rsimp. reflexivity.
+  Qed.
+  Lemma lam_val : arc_tf_lam NumR NumTR (arc_tf_pqr NumR (arc_tf_M NumR M P)) = ie_lam m00 m01 m10 m11.
+  Proof.
+    rewrite tfM_val. unfold arc_tf_lam, arc_tf_half_diff, arc_tf_pqr, ie_lam. rsimp. reflexivity.
+  Qed.
+  Let new_sweep : bool := if Rlt_b 0 det then sweep else negb sweep.
+  Let new_start := tf_point NumR M start.
+  Let new_end := tf_point NumR M end_.
+  Let new_rot := arc_tf_new_rot NumR NumTR M P.
+  Let Q := arc_init NumR NumTR new_start (nrx, nry) new_rot large new_sweep new_end.
+
+  Lemma start_img : new_start = ell c' nrx nry (cos psi) (sin psi) (sgn * th0 + alpha).
+  Proof.
+    unfold new_start. rewrite <- (arc_point0 start radius end_ rotation large sweep false Hse Hrx0 Hry0 Hsn) at 1.
+    change (arc_init_v NumR NumTR false start radius rotation large sweep end_) with P.
+    rewrite P_point, image_point. f_equal. ring.
+  Qed.
+  Lemma end_img : new_end = ell c' nrx nry (cos psi) (sin psi) (sgn * th0 + alpha + (sgn * dl) * PI / 180).
+  Proof.
+    unfold new_end. rewrite <- (arc_point1 start radius end_ rotation large sweep false Hse Hrx0 Hry0 Hsn) at 1.
+    change (arc_init_v NumR NumTR false start radius rotation large sweep end_) with P.
+    rewrite P_point, image_point. f_equal. field.
+  Qed.
+
+  (* the branch taken: an Arc, with these constructor arguments *)
+  Lemma fixed_branch : mat_is_identity NumR M = false ->
+    arc_transform_fixed NumR NumTR M P = SArc Q.
+  Proof.
+    intros Hid. unfold arc_transform_fixed. rewrite Hid.
+    rewrite lam_val, new_ry_val, new_rx_val.
+    pose proof (ie_lam_pos m00 m01 m10 m11 HdM) as Hl. pose proof (ie_nry_pos m00 m01 m10 m11 HdM) as Hn.
+    fold nry in Hn.
+    assert (E1 : eqb NumR (tf_det NumR M) (zero NumR) = false).
+    { unfold tf_det, M. rsimp. fold det. destruct (Req_b det 0) eqn:E; [|reflexivity].
+      apply Req_b_true in E. contradiction. }
+    rewrite E1. cbn [orb ltb NumR zero]. rewrite Rlt_b_t by exact Hl. cbn [negb].
+    assert (E2 : eqb NumR nry 0 = false).
+    { cbn [eqb NumR]. destruct (Req_b nry 0) eqn:E; [|reflexivity]. apply Req_b_true in E. lra. }
+    rewrite E2. reflexivity.
+  Qed.
+
+  Lemma new_flags :
+    sgn * dl <> 0 /\ -360 < sgn * dl < 360 /\ (new_sweep = true <-> 0 < sgn * dl)
+    /\ (180 < Rabs (sgn * dl) -> large = true) /\ (Rabs (sgn * dl) < 180 -> large = false).
+  Proof.
+    destruct dl_facts as (D0 & Dr & Ds & Dl1 & Dl2). unfold new_sweep.
+    destruct sgn_det as [[-> Hp]|[-> Hn]].
+    - rewrite Rlt_b_t by exact Hp. rewrite !Rmult_1_l.
+      split; [exact D0|split; [exact Dr|split; [exact Ds|split; assumption]]].
+    - rewrite Rlt_b_f by lra.
+      replace (-1 * dl) with (- dl) by ring. rewrite Rabs_Ropp.
+      split; [lra|split; [lra|split; [|split; assumption]]].
+      split.
+      + intros E. destruct sweep; cbn in E; try discriminate.
+        assert (~ 0 < dl) by (intros X; apply Ds in X; discriminate). lra.
+      + intros Hx. destruct sweep; cbn; [|reflexivity]. exfalso.
+        assert (0 < dl) by (apply Ds; reflexivity). lra.
+  Qed.
+
+  (* transform(arc, tf).point(t) = tf.(arc.point(t)) *)
+  Theorem fixed_point_commutes :
+    snap_inactive new_start (nrx, nry) new_end new_rot false ->
+    forall t, arc_point NumR NumTR Q t = tf_point NumR M (arc_point NumR NumTR P t).
+  Proof.
+    intros Hsn' t.
+    destruct new_flags as (F0 & Fr & Fs & Fl1 & Fl2).
+    pose proof (ie_nrx_pos m00 m01 m10 m11 HdM) as Hx. pose proof (ie_nry_pos m00 m01 m10 m11 HdM) as Hy.
+    fold nrx in Hx. fold nry in Hy.
+    pose proof (arc_init_roundtrip' c' new_rot nrx nry (sgn * th0 + alpha) (sgn * dl) large new_sweep
+                                    Hx Hy F0 Fr Fs Fl1 Fl2) as H.
+    cbv zeta in H. pose proof new_rot_phi as Ephi. fold new_rot in Ephi. rewrite !Ephi in H.
+    rewrite <- start_img, <- end_img in H. fold Q in H.
+    rewrite (H Hsn' t), P_point, image_point. f_equal. field.
+  Qed.
+  (* the snap decision of the new arc is that of the old one: both radicands are cot^2(delta/2) *)
+  Lemma radicand_same :
+    arc_radicand_of NumR NumTR new_start (nrx, nry) new_rot new_end
+    = arc_radicand_of NumR NumTR start radius rotation end_.
+  Proof.
+    destruct dl_facts as (D0 & Dr & _). destruct new_flags as (F0 & Fr & _).
+    destruct Rxy_pos as [HRx HRy].
+    pose proof (ie_nrx_pos m00 m01 m10 m11 HdM) as Hx. pose proof (ie_nry_pos m00 m01 m10 m11 HdM) as Hy.
+    fold nrx in Hx. fold nry in Hy.
+    (* old arc, through its stored radius *)
+    pose proof (radicand_center_form cP rotation Rx Ry th0 dl HRx HRy D0 Dr) as Ho. cbv zeta in Ho.
+    fold phi in Ho.
+    assert (Es : ell cP Rx Ry (cos phi) (sin phi) th0 = start).
+    { rewrite <- (arc_point0 start radius end_ rotation large sweep false Hse Hrx0 Hry0 Hsn).
+      change (arc_init_v NumR NumTR false start radius rotation large sweep end_) with P.
+      rewrite P_point. f_equal. ring. }
+    assert (Ee : ell cP Rx Ry (cos phi) (sin phi) (th0 + dl * PI / 180) = end_).
+    { rewrite <- (arc_point1 start radius end_ rotation large sweep false Hse Hrx0 Hry0 Hsn).
+      change (arc_init_v NumR NumTR false start radius rotation large sweep end_) with P.
+      rewrite P_point. f_equal. field. }
+    rewrite Es, Ee in Ho.
+    assert (Er : arc_radicand_of NumR NumTR start (Rx, Ry) rotation end_
+                 = arc_radicand_of NumR NumTR start radius rotation end_).
+    { unfold Rx, Ry, P, arc_init, arc_init_v. cbn [a_radius]. rewrite <- surjective_pairing.
+      unfold arc_radicand_of at 1.
+      now rewrite (radius_of_stored start radius end_ rotation Hse Hrx0 Hry0). }
+    rewrite Er in Ho.
+    (* new arc *)
+    pose proof (radicand_center_form c' new_rot nrx nry (sgn * th0 + alpha) (sgn * dl) Hx Hy F0 Fr) as Hn.
+    cbv zeta in Hn. pose proof new_rot_phi as Ephi. fold new_rot in Ephi. rewrite !Ephi in Hn.
+    rewrite <- start_img, <- end_img in Hn.
+    assert (Hsq : sin (sgn * dl * PI / 360) * sin (sgn * dl * PI / 360) = sin (dl * PI / 360) * sin (dl * PI / 360)
+               /\ cos (sgn * dl * PI / 360) * cos (sgn * dl * PI / 360) = cos (dl * PI / 360) * cos (dl * PI / 360)).
+    { destruct sgn_det as [[-> _]|[-> _]].
+      - rewrite !Rmult_1_l. split; reflexivity.
+      - replace (-1 * dl * PI / 360) with (- (dl * PI / 360)) by field.
+        rewrite sin_neg, cos_neg. split; ring. }
+    destruct Hsq as [Hs1 Hs2]. rewrite Hs1, Hs2 in Hn.
+    pose proof (sinh_ne0 dl D0 Dr) as Hne.
+    apply Rmult_eq_reg_r with (sin (dl * PI / 360) * sin (dl * PI / 360)).
+    - rewrite Hn, Ho. reflexivity.
+    - intros E. destruct (Rmult_integral _ _ E); contradiction.
+  Qed.
+
+  Lemma new_snap : snap_inactive new_start (nrx, nry) new_end new_rot false.
+  Proof.
+    unfold snap_inactive in *. rewrite radicand_same. exact Hsn.
+  Qed.
+
+  (* C10_arc_transform: transform(arc, tf) is an Arc with the same large_arc flag, sweep flipped
+     iff det < 0, and transform(arc, tf).point(t) = tf.(arc.point(t)) for every t *)
+  Theorem arc_transform_fixed_commutes : mat_is_identity NumR M = false ->
+    exists Q', arc_transform_fixed NumR NumTR M P = SArc Q' /\
+      a_large Q' = large /\ a_sweep Q' = (if Rlt_b 0 det then sweep else negb sweep) /\
+      forall t, arc_point NumR NumTR Q' t = tf_point NumR M (arc_point NumR NumTR P t).
+  Proof.
+    intros Hid. exists Q. split; [exact (fixed_branch Hid)|]. split; [reflexivity|]. split; [reflexivity|].
+    exact (fixed_point_commutes new_snap).
+  Qed.
+End Compose.
+
+(* the other two branches *)
+Lemma arc_transform_fixed_identity (M : Mat3 R) (P : ArcP R) :
+  mat_is_identity NumR M = true ->
+  arc_transform_fixed NumR NumTR M P = SArc P /\ forall z, tf_point NumR M z = z.
+Proof.
+  intros H. split; [unfold arc_transform_fixed; now rewrite H|].
+  destruct M as [[[[m00 m01] m02] [[m10 m11] m12]] [[m20 m21] m22]].
+  unfold mat_is_identity in H. cbn [eqb NumR one zero] in H.
+  repeat (apply andb_prop in H; destruct H as [H ?]).
+  repeat match goal with E : Req_b _ _ = true |- _ => apply Req_b_true in E end. subst.
+  intros [x y]. unfold tf_point. rsimp. apply cplx_eq; cbn [fst snd]; ring.
+Qed.
+
+(* singular tf: the image is flat and the branch returns Line(new_start, new_end) *)
+Lemma arc_transform_fixed_singular a00 a01 a02 a10 a11 a12 r20 r21 r22 (P : ArcP R) :
+  let M : Mat3 R := ((a00, a01, a02), (a10, a11, a12), (r20, r21, r22)) in
+  a00 * a11 - a01 * a10 = 0 ->
+  arc_transform_fixed NumR NumTR M P = SBez [tf_point NumR M (a_start P); tf_point NumR M (a_end P)].
+Proof.
+  intros M H. unfold arc_transform_fixed.
+  assert (Hid : mat_is_identity NumR M = false).
+  { destruct (mat_is_identity NumR M) eqn:E; [|reflexivity]. exfalso.
+    unfold mat_is_identity, M in E. cbn [eqb NumR one zero] in E.
+    repeat (apply andb_prop in E; destruct E as [E ?]).
+    repeat match goal with E : Req_b _ _ = true |- _ => apply Req_b_true in E end. subst. lra. }
+  rewrite Hid.
+  assert (E : eqb NumR (tf_det NumR M) (zero NumR) = true).
+  { unfold tf_det, M. rsimp. apply Req_b_true. exact H. }
+  rewrite E. reflexivity.
+Qed.
+
+(* non-vacuity: the upper unit half circle under tf = [[1,2,3],[1,1,-1],[0,0,1]] (det = -1) *)
+Lemma arc_transform_fixed_nonvacuous :
+  exists Q, arc_transform_fixed NumR NumTR ((1, 2, 3), (1, 1, -1), (0, 0, 1))
+                                (arc_init NumR NumTR Wstart Wrad 0 false true Wend) = SArc Q
+            /\ a_large Q = false /\ a_sweep Q = false.
+Proof.
+  destruct W_adm as [A [B C0]].
+  assert (Hs : snap_inactive Wstart Wrad Wend 0 false).
+  { intros _. apply (radicand_scaled Wstart Wrad Wend 0 A B C0). rewrite W_rc. lra. }
+  assert (Hdet : 1 * 1 - 2 * 1 <> 0) by lra.
+  assert (Hid : mat_is_identity NumR ((1, 2, 3), (1, 1, -1), (0, 0, 1)) = false).
+  { unfold mat_is_identity. cbn [eqb NumR one zero].
+    assert (E : Req_b 2 0 = false) by (destruct (Req_b 2 0) eqn:E; [apply Req_b_true in E; lra|reflexivity]).
+    rewrite E. now rewrite andb_false_r. }
+  destruct (arc_transform_fixed_commutes Wstart Wrad Wend 0 false true A B C0 Hs
+              1 2 3 1 1 (-1) 0 0 1 Hdet Hid) as (Q & E & HL & HS & _).
+  exists Q. split; [exact E|]. split; [exact HL|]. rewrite HS.
+  rewrite Rlt_b_f by lra. reflexivity.
+Qed.
